@@ -139,15 +139,23 @@ def run(cfg, H):
         ref = 0 * u
         for n, c in enumerate(cs):
             ref = ref + c * base(n, u)
+        # the coordinate buffers are built once and reused, as a caller looping over coefficient sets does
+        usq = u * u
+        u0, usq0 = u.copy(), usq.copy()
         if k == 'qbfs':
-            got = H.expect_no_raise('clenshaw_qbfs-raises', lambda: P.qpoly.clenshaw_qbfs(cs, u * u))
+            got = H.expect_no_raise('clenshaw_qbfs-raises', lambda: P.qpoly.clenshaw_qbfs(cs, usq))
             if got is not None:
                 H.eq('clenshaw_qbfs', got, ref)
-            res = H.expect_no_raise('compute_z_zprime_Qbfs-raises', lambda: P.qpoly.compute_z_zprime_Qbfs(cs, u, u * u))
+            fn = P.qpoly.compute_z_zprime_Qbfs
         else:
-            res = H.expect_no_raise('compute_z_zprime_Qcon-raises', lambda: P.qpoly.compute_z_zprime_Qcon(cs, u, u * u))
+            fn = P.qpoly.compute_z_zprime_Qcon
+        res = H.expect_no_raise('compute_z_zprime_%s-raises' % k, lambda: fn(cs, u, usq))
         if res is not None:
             H.eq('compute_z_zprime_%s value' % k, res[0], ref)
+            H.eq('the caller\'s coordinate buffers are left unchanged', H.np.stack([H.asarray(u), H.asarray(usq)]), H.np.stack([H.asarray(u0), H.asarray(usq0)]))
+            res2 = H.expect_no_raise('compute_z_zprime_%s-raises (second call)' % k, lambda: fn(cs, u, usq))
+            if res2 is not None:
+                H.eq('a second call on the same buffers gives the same sum', res2[0], ref)
     elif k == 'q2d':
         u = H.rarray('u', (2,))
         t = H.param('t') + 0 * u
